@@ -134,14 +134,24 @@ def native_lib(flavour="plain", hooks=False):
     with _Lock("nat-" + flavour):
         if not os.path.exists(lib):
             os.makedirs(dest, exist_ok=True)
-            cmd = list(NATIVE_FLAVOURS[flavour])
-            if hooks:
-                cmd.append("-D" + GUARD)
-            cmd += ["-I" + os.path.join(REPO, CDIR), "-o", lib + ".tmp"] + srcs + mine
             if flavour == "shim":
-                cmd += ["-lpthread", "-lm", "-lc", "-lgcc", "-lgcc_s"]
+                # compile with -fopenmp (the pragmas become GOMP_* calls) but link WITHOUT libgomp:
+                # the runtime entry points are provided by native/gomp_shim.c
+                objs = []
+                for src in srcs:
+                    o = os.path.join(dest, os.path.basename(src) + ".o")
+                    cmd = ["gcc", "-O1", "-g", "-fopenmp", "-fPIC", "-c", "-I" + os.path.join(REPO, CDIR), src, "-o", o]
+                    r = subprocess.run(cmd, capture_output=True, text=True)
+                    if r.returncode != 0:
+                        sys.stderr.write(r.stderr[-4000:])
+                        raise RuntimeError("native build failed: " + " ".join(cmd))
+                    objs.append(o)
+                cmd = ["gcc", "-O1", "-g", "-fPIC", "-shared", "-o", lib + ".tmp"] + objs + mine + ["-lpthread", "-lm"]
             else:
-                cmd += ["-lm"]
+                cmd = list(NATIVE_FLAVOURS[flavour])
+                if hooks:
+                    cmd.append("-D" + GUARD)
+                cmd += ["-I" + os.path.join(REPO, CDIR), "-o", lib + ".tmp"] + srcs + mine + ["-lm"]
             r = subprocess.run(cmd, capture_output=True, text=True)
             if r.returncode != 0:
                 sys.stderr.write(r.stderr[-4000:])
